@@ -27,6 +27,14 @@ func gcmSm4Data(productTable *[256]byte, data []byte, T *[16]byte)
 //go:noescape
 func gcmSm4Finish(productTable *[256]byte, tagMask, T *[16]byte, pLen, dLen uint64)
 
+// gcmTailNeedsRoom reports whether a message of n bytes ends in a partial
+// block that, together with a tag of tagSize bytes, is shorter than the
+// 16 bytes the assembly touches at the tail.
+func gcmTailNeedsRoom(n, tagSize int) bool {
+	rem := n % gcmBlockSize
+	return rem != 0 && rem+tagSize < gcmBlockSize
+}
+
 type gcmAsm struct {
 	gcm
 	bytesProductTable [256]byte
@@ -84,7 +92,16 @@ func (g *gcmAsm) Seal(dst, nonce, plaintext, data []byte) []byte {
 	}
 
 	if len(plaintext) > 0 {
-		gcmSm4Enc(&g.bytesProductTable, out, plaintext, &counter, &tagOut, g.cipher.enc[:])
+		if gcmTailNeedsRoom(len(plaintext), g.tagSize) {
+			// The assembly stores a whole 16-byte block for a trailing
+			// partial block, relying on the room of a 16-byte tag. With a
+			// shorter tag that store would run past out.
+			tmp := make([]byte, len(plaintext)+gcmBlockSize)
+			gcmSm4Enc(&g.bytesProductTable, tmp, plaintext, &counter, &tagOut, g.cipher.enc[:])
+			copy(out, tmp[:len(plaintext)])
+		} else {
+			gcmSm4Enc(&g.bytesProductTable, out, plaintext, &counter, &tagOut, g.cipher.enc[:])
+		}
 	}
 	gcmSm4Finish(&g.bytesProductTable, &tagMask, &tagOut, uint64(len(plaintext)), uint64(len(data)))
 	copy(out[len(plaintext):], tagOut[:])
@@ -137,7 +154,16 @@ func (g *gcmAsm) Open(dst, nonce, ciphertext, data []byte) ([]byte, error) {
 		panic("cipher: invalid buffer overlap")
 	}
 	if len(ciphertext) > 0 {
-		gcmSm4Dec(&g.bytesProductTable, out, ciphertext, &counter, &expectedTag, g.cipher.enc[:])
+		if gcmTailNeedsRoom(len(ciphertext), g.tagSize) {
+			// The assembly loads a whole 16-byte block for a trailing
+			// partial block, relying on a 16-byte tag following it. With a
+			// shorter tag that load would run past the caller's slice.
+			tmp := make([]byte, len(ciphertext)+gcmBlockSize)
+			copy(tmp, ciphertext)
+			gcmSm4Dec(&g.bytesProductTable, out, tmp[:len(ciphertext)], &counter, &expectedTag, g.cipher.enc[:])
+		} else {
+			gcmSm4Dec(&g.bytesProductTable, out, ciphertext, &counter, &expectedTag, g.cipher.enc[:])
+		}
 	}
 	gcmSm4Finish(&g.bytesProductTable, &tagMask, &expectedTag, uint64(len(ciphertext)), uint64(len(data)))
 
